@@ -56,6 +56,7 @@ fn gen_name(rng: &mut Rng, prefix: &str) -> String {
     let l = rng.usize_below(10);
     for _ in 0..l {
         match rng.below(12) {
+            0 if s.len() == prefix.len() && rng.bool() => s.push(*rng.pick(&['\u{feff}', '\u{fffd}', '\u{2028}', '\u{a0}', '\u{1f600}'])),
             0 => s.push('é'),
             1 => s.push('_'),
             2 => s.push('.'),
